@@ -143,6 +143,10 @@ def _cancel_safe(m):
     raise ValueError('recv shape not recognised')
 
 
+def _raise(msg):
+    raise ValueError(msg)
+
+
 EXTRA = _RTR + [
     # ---- C03
     ('chainPostPassMergesOverlap', 'src/repository/resources/chain.rs',
@@ -151,6 +155,16 @@ EXTRA = _RTR + [
     ('asnCountSaturates', 'src/repository/resources/asres.rs',
      r'impl AsRange \{[\s\S]*?pub fn asn_count\(self\) -> u32 \{([\s\S]*?)\n    \}',
      lambda m: 'saturating' in m.group(1), ['C03', 'C04']),
+    # ---- C14
+    ('mftExtLen', 'src/repository/manifest.rs', r'fn validate_file_name\(name: &\[u8\]\)[\s\S]*?if n\.len\(\) != (\d+) \|\| !n\.iter\(\)\.all\(\|c\| c\.is_ascii_alphabetic\(\)\)', 'nat', ['C14']),
+    ('mftNameCheckedBothSites', 'src/repository/manifest.rs',
+     r'(fn skip_opt_in<[\s\S]*?)fn validate_file_name',
+     lambda m: (len(re.findall(r'let file = Ia5String::take_from\(cons\)\?\.into_bytes\(\);\s*if let Err\(err\) = Self::validate_file_name\(&file\) \{\s*return Err\(cons\.content_err\(err\)\);', m.group(1))) == 2) or _raise('name check not at both sites'), ['C14']),
+    ('mftTimesChecked', 'src/repository/manifest.rs',
+     r'(let this_update = Time::take_from\(cons\)\?;\s*let next_update = Time::take_from\(cons\)\?;[\s\S]*?)let mut len = 0;',
+     lambda m: bool(re.search(r'if this_update > next_update \{\s*return Err', m.group(1))) or _raise('time check'), ['C14']),
+    ('mftStemChars', 'src/repository/manifest.rs',
+     r"fn valid_rfc9286_character\(c: u8\) -> bool \{\s*(c == b'-' \|\| c == b'_' \|\| c\.is_ascii_alphanumeric\(\))\s*\}", lambda m: True, ['C14']),
     # ---- C06
     ('rtrInitialVersion', 'src/rtr/client.rs', r'const INITIAL_VERSION: u8 = (\d+);', 'nat', ['C06']),
     # ---- C08
